@@ -65,6 +65,26 @@ def check_monoidal(rep, D, shard):
                 eq(rep, 'sum.zero', lambda: F(_Sum([], d.dom, d.cod)), lambda: _Sum([], F(d.dom), F(d.cod)), inp)
                 eq(rep, 'sum.zero.dom', lambda: F(_Sum([], d.dom, d.cod)).dom, lambda: F(d.dom), inp)
                 eq(rep, 'sum.zero.cod', lambda: F(_Sum([], d.dom, d.cod)).cod, lambda: F(d.cod), inp)
+                # sums of one, two and three terms: the image is the formal sum of the images (a Sum, term by term)
+                for nterms in (1, 2, 3):
+                    want_terms = [img] * nterms
+                    got = common.outcome(lambda: F(_Sum([d] * nterms)))
+                    rep.count('sum.terms')
+                    if got[0] != 'ok' or not isinstance(got[1], _Sum) or list(got[1].terms) != want_terms \
+                            or (got[1].dom, got[1].cod) != (img.dom, img.cod):
+                        rep.fail('C04:sum.terms', 'image of a %d-term sum is %r' % (nterms, got[1],), inp)
+                # a bubble with declared types: the image is the bubble of the image, typed by the images of the types
+                # (also when such an image is the empty type)
+                if idx < 12:
+                    for bdom, bcod in ((d.dom, d.cod), (d.cod, d.dom), (d.dom @ d.dom, Ty()), (Ty('y'), d.cod)):
+                        bub = d.bubble(dom=bdom, cod=bcod)
+                        got = common.outcome(lambda: F(bub))
+                        rep.count('bubble.types')
+                        if got[0] != 'ok':
+                            rep.fail('C04:bubble.raises', 'F(bubble) raised %r' % (got[1],), inp + ' bubble %r -> %r' % (bdom, bcod))
+                        elif (got[1].dom, got[1].cod) != (F(bdom), F(bcod)) or getattr(got[1], 'inside', None) != img:
+                            rep.fail('C04:bubble.types', 'F(bubble : %r -> %r) is %r : %r -> %r' % (
+                                bdom, bcod, got[1], got[1].dom, got[1].cod), inp)
                 for k in range(len(d) + 1):
                     eq(rep, 'slice', lambda: F(d[:k]) >> F(d[k:]), lambda: img, inp + ' at %d' % k)
                 for e in D[:25]:
